@@ -35,6 +35,8 @@ type Program struct {
 	// spec functions (spec_*) by object
 	Specs      map[*types.Func]*FuncInfo
 	Contracts  []*Contract
+	// contracts of interface methods declared in /repo (assumed for every implementation)
+	IfaceContracts map[string]*Contract
 	LoadErrors []string
 	RepoDir    string
 }
@@ -117,7 +119,7 @@ func LoadProgram(repoDir string) (*Program, error) {
 				}
 				p.Funcs[fi.Key] = fi
 				p.ByObj[obj] = fi
-				if strings.HasPrefix(fd.Name.Name, "spec_") {
+				if isSpecName(fd.Name.Name) {
 					p.Specs[obj] = fi
 				}
 			}
@@ -139,6 +141,9 @@ func LoadProgram(repoDir string) (*Program, error) {
 	}
 	for _, c := range p.Contracts {
 		fi, ok := p.Funcs[c.Key]
+		if !ok && p.bindIface(c) {
+			continue
+		}
 		if !ok {
 			c.BindErr = fmt.Sprintf("contract for %s: no such function in /repo", c.Key)
 			continue
@@ -147,6 +152,60 @@ func LoadProgram(repoDir string) (*Program, error) {
 		c.Fn = fi
 	}
 	return p, nil
+}
+
+// ifaceKey names an interface method: <relpkg>.<Iface>.<Method>.
+func ifaceKey(fn *types.Func) string {
+	sig, _ := fn.Type().(*types.Signature)
+	if sig == nil || sig.Recv() == nil || fn.Pkg() == nil {
+		return ""
+	}
+	t := sig.Recv().Type()
+	if n, ok := t.(*types.Named); ok {
+		return relPkg(fn.Pkg().Path()) + "." + n.Obj().Name() + "." + fn.Name()
+	}
+	// methods of interface literals: find the named interface that declares it
+	for _, name := range fn.Pkg().Scope().Names() {
+		if tn, ok := fn.Pkg().Scope().Lookup(name).(*types.TypeName); ok {
+			if it, ok := tn.Type().Underlying().(*types.Interface); ok {
+				for i := 0; i < it.NumExplicitMethods(); i++ {
+					if it.ExplicitMethod(i) == fn {
+						return relPkg(fn.Pkg().Path()) + "." + name + "." + fn.Name()
+					}
+				}
+			}
+		}
+	}
+	return ""
+}
+
+// bindIface binds a contract block to an interface method if its key names one.
+func (p *Program) bindIface(c *Contract) bool {
+	parts := strings.Split(c.Key, ".")
+	if len(parts) < 3 {
+		return false
+	}
+	meth := parts[len(parts)-1]
+	iface := parts[len(parts)-2]
+	tn, ok := c.Pkg.Types.Scope().Lookup(iface).(*types.TypeName)
+	if !ok {
+		return false
+	}
+	it, ok := tn.Type().Underlying().(*types.Interface)
+	if !ok {
+		return false
+	}
+	for i := 0; i < it.NumMethods(); i++ {
+		if it.Method(i).Name() == meth {
+			if p.IfaceContracts == nil {
+				p.IfaceContracts = map[string]*Contract{}
+			}
+			p.IfaceContracts[c.Key] = c
+			c.Iface = true
+			return true
+		}
+	}
+	return false
 }
 
 // fileOf returns the *ast.File containing pos in pkg.
